@@ -14,33 +14,36 @@ THEOREMS = ["C17_sums", "C17_linear_normal_equations", "C17_quadratic_normal_equ
             "C17_general_normal_equations", "C17_general_eq_quadratic", "C17_general_eq_linear",
             "C17_degenerate_refused", "C17_correlation", "C17_input_forms",
             "C17_correlation_collinear", "C17_correlation_rescaling", "C17_permutation_invariance",
-            "C17_general_permutation_invariance", "C17_noiseless_recovered"]
+            "C17_general_permutation_invariance", "C17_noiseless_recovered", "C17_menu_instances"]
 PROOF_TIMEOUT = {"quick": 1500, "thorough": 3000}
 EXHAUSTIVE = False
 MANIFEST = {
     "category": "proof",
-    "text": "Ideal (real-arithmetic) instance of the regenerated model, data lists of ANY length (induction over the generated loops): the stored sums are the power sums; whenever the generated guards let a result through, linear/quadratic/general_fitting satisfy the 2x2/3x3 normal equations (residuals orthogonal to every basis function, arbitrary basis functions), general(x^2,x,1) = quadratic and general(x,1,0) = linear, exactly degenerate data give ZeroDivisionError, correlation formula, |r| <= 1 (Cauchy-Schwarz), r = +-1 on collinear data, affine invariance, sign flips, permutation invariance of all fits, noiseless data recovered exactly; bit-exact correspondence incl. basis-function values; exact rational (Fraction) reference search on the implementation.",
+    "text": "Ideal (real-arithmetic) instance of the regenerated model, data lists of ANY length (induction over the generated loops): the stored sums are the power sums; whenever the generated guards let a result through, linear/quadratic/general_fitting satisfy the 2x2/3x3 normal equations (residuals orthogonal to every basis function, arbitrary basis functions), general(x^2,x,1) = quadratic and general(x,1,0) = linear, exactly degenerate data give ZeroDivisionError, correlation formula, |r| <= 1 (Cauchy-Schwarz), r = +-1 on collinear data, affine invariance, sign flips, permutation invariance of all fits, noiseless data recovered exactly; all theorems ideal-instance only (binary64 rounding searched, not proved), constructor dispatch proved for 2-3 symbolic points only; bit-exact correspondence incl. basis-function values; exact rational (Fraction) reference search on the implementation.",
     "technique": "generated model + symbolic evaluation (pyrun) + induction over lists + field/nra in the ideal instance + bit-exact differential correspondence + exact rational oracle",
     "design_ref": "8/C17",
 }
 EXPLANATION = ("The model of CurveFitting regenerated from /repo is read in exact real arithmetic: for float data lists of any "
                "length the accumulated sums are proved to be the power sums (induction over the generated for-loops), and the "
                "closed forms of linear/quadratic/general_fitting are proved to solve the normal equations whenever the guards "
-               "let a result through (field); binary64 rounding is not covered by the theorems and is searched against an "
-               "exact rational reference with a conditioning gate.")
+               "let a result through (field), else ZeroDivisionError (both branches explicit, no fuel involved); further: "
+               "general(x^2,x,1)=quadratic, general(x,1,null)=linear, |r|<=1, r=+-1 on collinear data, affine invariance, "
+               "permutation invariance, noiseless recovery. All theorems are about the ideal instance starting from the stored "
+               "object cf_of xs ys (constructor dispatch proved for 2-3 symbolic points only); binary64 rounding is not covered "
+               "by any theorem and is searched against an exact rational reference with a conditioning gate.")
 CLAUSES = {
     "stored sums are N, Sx, Sx2, Sx3, Sx4, Sy, Sxy, Sx2y, Sy2 (float data lists of any length)": "proved [ideal, induction over the generated loop of _compute_parameters]",
     "linear fit solves the 2x2 normal equations / residuals orthogonal to x and 1 when the guard passes, else ZeroDivisionError": "proved [ideal, any length]",
     "quadratic fit solves the 3x3 normal equations / residuals orthogonal to x^2, x, 1 when the guard passes, else ZeroDivisionError": "proved [ideal, any length]",
-    "general fit: residuals orthogonal to every basis function (ARBITRARY f0,f1,f2; 3-function branch), 2x2 normal equations in the 2-function branch, refusals": "proved [ideal, non-empty data of any length, induction over the generated loop of general_fitting]",
+    "general fit: residuals orthogonal to every basis function (ARBITRARY f0,f1,f2; 3-function branch), 2x2 normal equations in the 2-function branch, all three refusal branches": "proved [ideal, NON-EMPTY float data of any length, induction over the generated loop of general_fitting; function values abstracted by `call` with hypotheses call f_k [VFloat x] = VFloat (g_k x), shown satisfiable by the concrete interpreter menu_call (C17_menu_instances)]",
     "general(x^2, x, 1) = quadratic fit; general(x, 1, null) = linear fit": "proved [ideal, any length, equal returned values; side conditions: the guards of both methods pass (general(x,1) additionally needs Sx2 >= TOL)]",
-    "exactly degenerate data (all x equal) => ZeroDivisionError from linear/quadratic fit and correlation": "proved [ideal]; binary64 on inexact sums: known finding degenerate-inexact-not-refused (absolute TOL guard vs rounding); exact-sum degenerate data searched strictly (key degenerate-not-refused)",
+    "exactly degenerate data (all x equal) => ZeroDivisionError from linear/quadratic fit and correlation": "proved [ideal: exact-zero determinant only]; binary64: data whose determinant evaluated in binary64 is below TOL are searched strictly (key degenerate-not-refused); the known finding degenerate-inexact-not-refused is restricted to: exact determinant 0 (Fraction) AND the documented closed form evaluated in binary64 does not refuse AND the implementation returns bit-identically that result; any other outcome gets key degenerate-inexact-other",
     "correlation coefficient = cov/(sqrt varx * sqrt vary), |r| <= 1, sign flip under y -> -y": "proved [ideal, any length; Cauchy-Schwarz over lists]",
-    "input forms: lists (truncated to the shorter), tuples, interleaved scalars (odd one dropped), copy constructor give the same object; one pair refused": "proved [ideal, two points with symbolic entries]; searched for 2-200 points: 7 forms bit-identical",
+    "input forms: lists (truncated to the shorter), tuples, interleaved scalars (odd one dropped), copy constructor give the same object cf_of xs ys; one pair refused": "proved [ideal] ONLY for two points with symbolic entries (separate lists also for three; copy constructor on one literal object); nothing is proved about __init__/set for more points (the any-length theorems start from the stored object cf_of xs ys / _compute_parameters); searched for 2-200 points: 7 forms bit-identical",
     "r = +-1 for collinear data (y = al*x + be, al <> 0, x not all equal); r unchanged by positive affine rescaling of either variable, sign flip under a negative one / negation of x or y": "proved [ideal, any length]; binary64: searched against the exact rational r (|r| <= 1 + 1e-9 accepted: rounding gives up to 1.0000000000000844 on collinear data)",
     "noiseless data are recovered: points exactly on a line / parabola give back its coefficients when the guard passes": "proved [ideal, any length]",
     "relative 1e-6 agreement of the binary64 result with the exact rational solution on well-conditioned data": "unproved (searched): rounding is outside the ideal instance; Fraction reference with a conditioning gate (first-order rounding estimate of the closed form <= 1e-7 relative)",
-    "independence of the order of the points (Permutation of the point list): linear, quadratic fit, correlation; general fit with arbitrary basis functions in every branch its closed forms cover": "proved [ideal, any length]; binary64: searched (all permutations of sets of <= 5 points, 3 random ones of larger sets, relative 1e-6)",
+    "independence of the order of the points (Permutation of the point list): linear, quadratic fit, correlation; general fit with arbitrary basis functions in every branch its closed forms cover": "proved [ideal, any length: the exact real sums are symmetric; says nothing about the order of binary64 summation]; binary64: searched (all permutations of sets of <= 5 points, 3 random ones of larger sets, relative 1e-6)",
     "general_fitting(f0, f1) with the default null third function": "modelled by hand: the translator cannot render the lambda default, cases pass bf_zero explicitly; the search checks general_fitting(bf_x, bf_one) == general_fitting(bf_x, bf_one, bf_zero) on the implementation",
 }
 
@@ -189,6 +192,7 @@ class Oracle:
         self.keys = {}
         self.n = 0
         self.nontrivial = 0
+        self.inexact_seen = 0
 
     def report(self, key, what, xs, ys, expr):
         self.keys[key] = self.keys.get(key, 0) + 1
@@ -431,19 +435,37 @@ class Oracle:
             if g != ("exc", "ZeroDivisionError"):
                 self.report("degenerate-not-refused", "general_fitting(%s, %s, %s) (singular normal equations) gives %r" % (t + (g,)), xs3, ys,
                             "cf.general_fitting(%s, %s, %s)" % t)
-        # (b) inexact sums: any abscissa in [-1e3, 1e3]
+        # (b) any abscissa in [-1e3, 1e3] (sums generally not exact in binary64).  The exact determinant is 0
+        # (checked with Fraction).  ZeroDivisionError is what the property demands.  Anything else is the KNOWN
+        # finding only if it is precisely the documented rounding effect: the documented algorithm evaluated in
+        # binary64 (R.float_*: absolute guard |d| < TOL on the rounded sums) does not refuse either and gives the
+        # identical result.  If that evaluation refuses (float determinant below TOL, e.g. exact sums) the strict
+        # key is used; if it gives something else, the implementation deviates from the documented algorithm.
         n = pick_n(rng)
-        x0 = rng.choice([rng.uniform(-1e3, 1e3), round(rng.uniform(-1e3, 1e3), 1), float(rng.randint(-1000, 1000))])
+        x0 = rng.choice([rng.uniform(-1e3, 1e3), round(rng.uniform(-1e3, 1e3), 1), float(rng.randint(-1000, 1000)),
+                         rng.uniform(-1, 1), round(rng.uniform(-5, 5), 1), 0.1])
         ys = [rng.uniform(-10, 10) for _ in range(n)]
         xs = [x0] * n
+        assert R.exact_linear_det(xs) == 0
         cf = CF(xs, ys)
-        for expr, f in (("cf.linear_fitting()", cf.linear_fitting), ("cf.quadratic_fitting()", cf.quadratic_fitting),
-                        ("cf.correlation_coeff()", cf.correlation_coeff)):
+        for expr, f, model in (("cf.linear_fitting()", cf.linear_fitting, R.float_linear),
+                               ("cf.quadratic_fitting()", cf.quadratic_fitting, R.float_quadratic),
+                               ("cf.correlation_coeff()", cf.correlation_coeff, R.float_correlation)):
             self.n += 1
             g = call(f)
-            if g != ("exc", "ZeroDivisionError"):
-                self.report("degenerate-inexact-not-refused", "%s on %d points with all x = %r gives %r instead of ZeroDivisionError"
-                            % (expr, n, x0, g), xs, ys, expr)
+            if g == ("exc", "ZeroDivisionError"):
+                continue
+            want = model(xs, ys)
+            if want == ("exc", "ZeroDivisionError"):
+                self.report("degenerate-not-refused", "%s on %d points with all x = %r gives %r although the determinant "
+                            "computed in binary64 is below TOL (ZeroDivisionError expected)" % (expr, n, x0, g), xs, ys, expr)
+            elif repr(g) == repr(want):
+                self.inexact_seen += 1
+                self.report("degenerate-inexact-not-refused", "%s on %d points with all x = %r gives %r instead of ZeroDivisionError "
+                            "(exact determinant 0, rounded determinant not below TOL)" % (expr, n, x0, g), xs, ys, expr)
+            else:
+                self.report("degenerate-inexact-other", "%s on %d points with all x = %r gives %r; the documented closed form "
+                            "evaluated in binary64 gives %r" % (expr, n, x0, g, want), xs, ys, expr)
 
 
 def noiseless_exact(rng):
@@ -508,5 +530,5 @@ def search(rng, tier, deep):
                      "residual orthogonality, general(x^2,x,1)=quadratic, general(x,1)=linear, all permutations of sets of <= 5 points, "
                      "7 input forms bit-identical, correlation coefficient (range, exact value, collinear, affine, sign flip), degenerate data",
              "samples": [{"input": "xs=[1.0,2.0,3.5], ys=[2.0,4.1,7.2]", "checked": "linear_fitting vs Fraction solution, orthogonality, forms, permutations"}],
-             "finding_counts": O.keys}
+             "finding_counts": O.keys, "known_finding_envelope": "degenerate-inexact-not-refused only when exact determinant = 0, the documented closed form in binary64 does not refuse, and the implementation returns exactly that result (%d such)" % O.inexact_seen}
     return O.findings, stats
